@@ -88,7 +88,7 @@ func runProperty(repo, prop string, cfg BuildConfig, timeoutS int, scratch strin
 	var units []*Unit
 	var mu sync.Mutex
 	var wg sync.WaitGroup
-	sem := make(chan struct{}, 8)
+	sem := make(chan struct{}, 1) // encoding shares the World's caches: one unit at a time
 	for _, c := range w.all {
 		if !hasProp(c, prop) && prop != "" {
 			continue
